@@ -77,7 +77,7 @@ def proj_convert(op, out):
 
 def proj_hooks(op, out):
     w = first_word(op)
-    if w in ('add', 'remove', 'remove_elem', 'clear', 'destroy', 'read_string', 'read_file', 'read_stream'):
+    if w in ('add', 'remove', 'remove_elem', 'clear', 'destroy', 'read_string', 'read_file', 'read_stream', 'set_hook'):
         return out
     if w == 'dump':
         return hooks_of_dump(out)
@@ -284,6 +284,10 @@ def run_C05(ctx):
     correspondence(ctx, [exhaustive_histories(d)], proj_full, None, 'C05 ordered-tree behaviour', 'exhaustive<=%d' % d)
     ctx['cov']['exhaustive_histories'] = {'alphabet': small_alphabet(), 'max_len': d}
     api_correspondence(ctx, ['structure', 'hooks'], s, n, proj_full, None, 'C05 ordered-tree behaviour')
+    # "an assignment that reports success leaves exactly the assigned value, one that reports failure leaves everything
+    # unchanged": the assignment grid (stored type x boundary value x setter kind x auto-convert, direct and element
+    # setters), full projection - every answer and the whole dump after it
+    correspondence(ctx, [c07_grid], proj_full, None, 'C05 ordered-tree behaviour', 'assignment-grid')
 
 def c06_typed_grid(impl, rng, stats):
     """failing typed lookups must leave the output untouched: stored type x requested type x auto-convert x by-path/by-name"""
@@ -304,6 +308,12 @@ def run_C06(ctx):
     s, n = sizes(ctx, (6, 200), (300, 1000))
     correspondence(ctx, [c06_typed_grid], proj_lookup, oracle_lookup, 'C06 path lookup', 'typed-grid')
     api_correspondence(ctx, ['lookup'], s, n, proj_lookup, oracle_lookup, 'C06 path lookup')
+    # the C++ half of the property: Setting::getPath() of every kind of setting (members, list and ARRAY elements, nested)
+    # is the documented path text and resolves back (theorem C06_getPath on the model side; here through the real C++ API)
+    import props_c17, gen_cpp
+    k, m = (3, 260) if ctx['tier'] == 'quick' else (30, 700)
+    fns = [(lambda impl, rng, stats, pr=pr: gen_cpp.session(impl, rng, m, pr, stats)) for pr in (['lookup', 'struct', 'mixed'] * k)[:k]]
+    correspondence(ctx, fns, props_c17.proj, props_c17.make_oracle(), 'C06 getPath round trip (C++ API)', 'cpp-paths', driver='drv_cpp.cc', extra=props_c17.WRAP)
 
 def c07_grid(impl, rng, stats):
     """the property's grid, enumerated: stored type x boundary value x accessor family x auto-convert"""
@@ -403,8 +413,30 @@ def c16_strings(ctx):
                 do('destroy')
     correspondence(ctx, [fn], proj_full, None, 'C16 string copies and lifetimes', 'strings')
 
+def c16_hooks_under_faults(ctx):
+    """C16 x C13: overrides, removals and a re-read on a tree with hooks, every allocation of that history failed in turn
+    with a fatal-error handler that jumps out of the library; after config_destroy every attached hook has been
+    released exactly once (harness/drv_alloc.c: allochooks)"""
+    expect = {}
+    def fn(impl, rng, stats):
+        out = impl.do('allochooks -1')
+        nh = int(out.split(' ')[1]) if out.startswith('count ') else 0
+        for k in range(nh + 2):
+            impl.do('allochooks %d' % k)
+            expect[len(impl.ops) - 1] = k
+            stats['c16:hooks-under-fault'] = stats.get('c16:hooks-under-fault', 0) + 1
+    def oracle(ops, outs):
+        for i, k in expect.items():
+            if i < len(outs) and outs[i] != 'hooks ok':
+                return i, 'allocation %d of the history fails, the handler jumps out, the configuration is destroyed: %s' % (k, outs[i])
+        return None
+    correspondence(ctx, [fn], lambda op, out: 'count' if out.startswith('count') else out, oracle, 'C16 hooks released exactly once', 'alloc-faults',
+                   driver='drv_alloc.c', extra=('-Wl,--wrap=malloc', '-Wl,--wrap=calloc', '-Wl,--wrap=realloc', '-Wl,--wrap=strdup'),
+                   impl_env={'ASAN_OPTIONS': 'detect_leaks=0'})
+
 def run_C16(ctx):
     c16_strings(ctx)
+    c16_hooks_under_faults(ctx)
     s, n = sizes(ctx, (6, 250), (300, 1000))
     api_correspondence(ctx, ['hooks'], s, n, proj_hooks, None, 'C16 destructor log')
 
@@ -577,7 +609,7 @@ def run_C12(ctx):
                     expect[len(impl.ops) - 1] = ('1' if k >= n else '0', n)
                     stats['c12:fsize:' + ('ok' if k >= n else 'fail')] = stats.get('c12:fsize:' + ('ok' if k >= n else 'fail'), 0) + 1
                 for kind, want in (('devfull', '1' if (n == 0 and not fsync) else '0'), ('nodir', '0'), ('isdir', '0'), ('readonly', '0'),
-                                   ('fsyncfail', '0' if fsync else '1'), ('fclosefail', '0')):
+                                   ('fsyncfail', '0' if fsync else '1'), ('fclosefail', '0'), ('existing', '1')):
                     impl.do('wfcase %s %d %s 0' % (hexs(text), fsync, kind))
                     expect[len(impl.ops) - 1] = (want, n)
                     stats['c12:' + kind] = stats.get('c12:' + kind, 0) + 1
@@ -722,6 +754,13 @@ def run_C13(ctx):
                     impl.do('allocdouble %d %d %d' % (sc, k, n))
                     expect[len(impl.ops) - 1] = ('handler handler', sc, k, n)
                     stats['c13:double%d' % sc] = stats.get('c13:double%d' % sc, 0) + 1
+        # hooks under an allocation failure with a non-returning handler: every attached hook released exactly once
+        out = impl.do('allochooks -1')
+        nh = int(out.split(' ')[1]) if out.startswith('count ') else 0
+        for k in range(nh + 2):
+            impl.do('allochooks %d' % k)
+            expect[len(impl.ops) - 1] = ('hooks ok', 7, k, nh)
+            stats['c13:hooks'] = stats.get('c13:hooks', 0) + 1
     def oracle(ops, outs):
         for i, (want, sc, k, n) in expect.items():
             if i < len(outs) and outs[i] != want:
